@@ -27,7 +27,7 @@ MANIFEST = {
             '(R-SURR) every surrogate-class test in the UTF-16 decoder, its copy_utf16_from fast paths and convert_unaligned_utf16_to_utf8 denotes exactly D800-DBFF, DC00-DFFF or D800-DFFF. ' 
             '(R-PENDCOUNT) for the two decoders that keep an unfinished sequence in an enum (EUC-JP, gb18030), Pending::count() — reported as the malformed length when the stream ends there — agrees with the bytes actually taken: on every path from a loop head to `return InputEmpty` that stores a non-None variant, count(variant) minus the number of byte reads on the path is the same for all variants (the byte already in hand at that head). ' 
             '(R-REQUEUE) on every path that ends in Malformed(len, after) with after > 0 (gb18030: 8 paths, resume and in-loop) the bytes of the current sequence are ordered chronologically (payload of the matched pending variant, byte in hand, reads minus unread) and every value stored into a state field derives only from the `after` re-queued bytes, never from the malformed ones, and each re-queued byte reaches a state field. ' 
-            '(R-ENDIAN) every code unit the UTF-16LE/BE decoders read from the unaligned byte source (UnalignedU16Slice::at / simd_at) reaches its uses only through the endianness adapter: swap_if_opposite_endian, or simd_byte_swap / swap_bytes on the E::OPPOSITE_ENDIAN branch and unswapped on the other (every region path of every reading body). (R-UTF8ASM) every place that assembles a value from the bytes of a UTF-8 sequence (OR/ADD of shifted byte terms) has the shifts 6(n-1)..0, a lead term equal to byte-C0/E0/F0 on the n-byte leads and continuation terms equal to byte-80 on 80-BF, compared as exact functions over the byte domains, loaded from consecutive positions where the loads resolve (here: convert_utf8_to_utf16_up_to_invalid, 5 sites). (R-PREPEND) the byte the ISO-2022-JP decoder puts back after a broken escape sequence is written by the preamble with the same writer and the same value as the main loop decodes that byte in that state (states x {24, 28}).',
+            '(R-ENDIAN) every code unit the UTF-16LE/BE decoders read from the unaligned byte source (UnalignedU16Slice::at / simd_at) reaches its uses only through the endianness adapter: swap_if_opposite_endian, or simd_byte_swap / swap_bytes on the E::OPPOSITE_ENDIAN branch and unswapped on the other (every region path of every reading body). (R-UTF8ASM) every place that assembles a value from the bytes of a UTF-8 sequence (OR/ADD of shifted byte terms) has the shifts 6(n-1)..0, a lead term equal to byte-C0/E0/F0 on the n-byte leads and continuation terms equal to byte-80 on 80-BF, compared as exact functions over the byte domains, loaded from consecutive positions where the loads resolve (here: convert_utf8_to_utf16_up_to_invalid, 5 sites). (R-PREPEND) the byte the ISO-2022-JP decoder puts back after a broken escape sequence is written by the preamble with the same writer and the same value as the main loop decodes that byte in that state (states x {24, 28}). Also run here (shared rules, same code as in C14/C15): R-SCAN over utf_8::utf8_valid_up_to and convert_utf8_to_utf16_up_to_invalid, the UTF-8 decoder\'s fast paths.',
     'note': 'Trusted: rustc MIR, mirx, rule library, the Standard\'s decoder byte ranges transcribed in rules/p_c01.py; the ASCII fast path '
             'delivers only bytes >= 0x80 as `non_ascii` (kernel contract).',
     'technique': 'abstract interpretation (exact interval sets per fetched byte, opaque table predicates) over rustc MIR',
@@ -412,4 +412,6 @@ def run(rep, facts, tier):
         rep.floor('R-SURR', 'surrogate-class tests on the decoder side (UTF-16 decoder, copy_utf16_from, convert_unaligned_utf16_to_utf8)', n, 10, c)
         r_utf8asm.run(rep, f, c, scope='utf_8::', floor=5)
         r_prepend.run(rep, f, c)
+        import scan
+        scan.run_specs(rep, f, c, 'R-SCAN', ['utf_8::utf8_valid_up_to', 'utf_8::convert_utf8_to_utf16_up_to_invalid'])     # the UTF-8 decoder's fast paths
     return ('other', MANIFEST['text'], [])
